@@ -111,8 +111,13 @@ theorem numberCore_lex (s : List Char) (neg signed : Bool) (ip fp : List Char) (
     numberCore s neg signed (ip ++ (if dot then '.' :: fp else [])) e p = s ∨
     ∃ l' : Lex, l'.WF ∧ l'.str = numberCore s neg signed (ip ++ (if dot then '.' :: fp else [])) e p ∧
       l'.sg ≠ .plus ∧
-      (p ≤ 0 → (if signed then 1 else 0) + (ip ++ (if dot then '.' :: fp else [])).length + expLen e ≤ s.length →
-        l'.val = dval neg (natOf (ip ++ fp)) (e - (fp.length : Int))) := by
+      ((if signed then 1 else 0) + (ip ++ (if dot then '.' :: fp else [])).length + expLen e ≤ s.length →
+        (natOf (ip ++ fp) = 0 ∧ l'.val = 0) ∨
+        (MantWF (dropZeros ip) (dropTrail '0' fp) ∧
+          (mlen (rnd p ⟨dropZeros ip, dropTrail '0' fp, e⟩).ip (rnd p ⟨dropZeros ip, dropTrail '0' fp, e⟩).fp +
+              expLen (rnd p ⟨dropZeros ip, dropTrail '0' fp, e⟩).e ≤
+            mlen (dropZeros ip) (dropTrail '0' fp) + expLen e →
+           l'.val = mantVal neg (rnd p ⟨dropZeros ip, dropTrail '0' fp, e⟩)))) := by
   have hipd : ∀ c ∈ ip, c ≠ '.' := fun c hc => digit_ne_dot (hip c hc)
   have hfpd : ∀ c ∈ fp, c ≠ '.' := fun c hc => digit_ne_dot (hfp c hc)
   have hsp : splitLastDot (ip ++ (if dot then '.' :: fp else [])) = (ip, if dot then some fp else none) := by
@@ -141,9 +146,11 @@ theorem numberCore_lex (s : List Char) (neg signed : Bool) (ip fp : List Char) (
       simp only [Bool.and_eq_true, List.isEmpty_iff] at hz
       right
       refine ⟨zeroLex, zeroLex_wf, zeroLex_str, by simp [zeroLex], ?_⟩
-      intro _ _
-      rw [zeroLex_val, natOf_append, natOf_of_dropZeros_nil hz.2, natOf_of_dropTrail_nil hz.1.2]
-      simp [dval_zero]
+      intro _
+      left
+      refine ⟨?_, zeroLex_val⟩
+      rw [natOf_append, natOf_of_dropZeros_nil hz.2, natOf_of_dropTrail_nil hz.1.2]
+      simp
     · rename_i hz1
       split
       · rename_i hz2
@@ -171,13 +178,13 @@ theorem numberCore_lex (s : List Char) (neg signed : Bool) (ip fp : List Char) (
           refine ⟨l', hl'.wf, ?_, ?_, ?_⟩
           · unfold rnd at hl'; exact hl'.str
           · rw [hl'.sg]; exact sgOf_ne_plus neg
-          · intro hp hs
-            rw [rnd_nonpos hp] at hv
-            rw [trim_val]
+          · intro hs
+            right
+            refine ⟨hwf0, fun hR => ?_⟩
             apply hv
+            refine Nat.le_trans hR ?_
             have hm := mlen_cases (dropZeros ip) (dropTrail '0' fp)
             have hzl := dropZeros_length_le ip
-            simp only []
             rw [← hrest] at hs
             cases hdot : dot with
             | true => rw [hdot] at hs; simp only [if_true] at hs; omega
@@ -204,9 +211,10 @@ theorem numberCore_lex (s : List Char) (neg signed : Bool) (ip fp : List Char) (
     right
     simp only [hdot, Bool.false_and, Bool.false_eq_true, if_false, Bool.not_false, Bool.true_and, beq_self_eq_true, if_true]
     refine ⟨zeroLex, zeroLex_wf, zeroLex_str, by simp [zeroLex], ?_⟩
-    intro _ _
-    rw [zeroLex_val, hfp0, List.append_nil, natOf_of_dropZeros_nil hdz]
-    simp [dval_zero]
+    intro _
+    left
+    refine ⟨?_, zeroLex_val⟩
+    rw [hfp0, List.append_nil, natOf_of_dropZeros_nil hdz]
 
 theorem takeWhile_all {p : Char → Bool} {l : List Char} (h : ∀ x ∈ l, p x = true) : l.takeWhile p = l := by
   have := takeWhile_append_stop (p := p) (a := l) (b := []) h (by intro c t e; cases e)
@@ -281,7 +289,13 @@ theorem exPart_notE (l : Lex) (hwf : l.WF) : ∀ c t, l.exPart = c :: t → notE
 theorem number_lex (l : Lex) (hwf : l.WF) (p : Int)
     (hr : ∀ m0 : Mant, MantWF m0.ip m0.fp → MantWF (rnd p m0).ip (rnd p m0).fp) :
     number l.str p = l.str ∨
-    ∃ l' : Lex, l'.WF ∧ l'.str = number l.str p ∧ l'.sg ≠ .plus ∧ (p ≤ 0 → l'.val = l.val) := by
+    ∃ l' : Lex, l'.WF ∧ l'.str = number l.str p ∧ l'.sg ≠ .plus ∧ (p ≤ 0 → l'.val = l.val) ∧
+      ((l.val = 0 ∧ l'.val = 0) ∨
+       (MantWF (dropZeros l.ip) (dropTrail '0' l.fp) ∧
+        (mlen (rnd p ⟨dropZeros l.ip, dropTrail '0' l.fp, l.expVal⟩).ip (rnd p ⟨dropZeros l.ip, dropTrail '0' l.fp, l.expVal⟩).fp +
+            expLen (rnd p ⟨dropZeros l.ip, dropTrail '0' l.fp, l.expVal⟩).e ≤
+          mlen (dropZeros l.ip) (dropTrail '0' l.fp) + expLen l.expVal →
+         l'.val = mantVal l.sg.neg (rnd p ⟨dropZeros l.ip, dropTrail '0' l.fp, l.expVal⟩)))) := by
   unfold number
   split
   · left; rfl
@@ -343,10 +357,19 @@ theorem number_lex (l : Lex) (hwf : l.WF) (p : Int)
         hwf.nonempty hr with h | ⟨l', h1, h2, h3, h4⟩
       · left; exact h
       · right
-        refine ⟨l', h1, h2, h3, ?_⟩
-        intro hp
-        apply h4 hp
-        rw [hs4, hBl]
-        omega
+        have hs : (if (l.sg != Sg.none) = true then 1 else 0) +
+            (l.ip ++ if l.dot = true then '.' :: l.fp else []).length + expLen l.expVal ≤ l.str.length := by
+          rw [hs4, hBl]; omega
+        have hval0 : l.val = dval l.sg.neg (natOf (l.ip ++ l.fp)) (l.expVal - (l.fp.length : Int)) := rfl
+        refine ⟨l', h1, h2, h3, ?_, ?_⟩
+        · intro hp
+          rcases h4 hs with ⟨z1, z2⟩ | ⟨_, hv⟩
+          · rw [z2, hval0, z1, dval_zero]
+          · rw [rnd_nonpos hp] at hv
+            rw [hv (Nat.le_refl _), hval0, trim_val]
+            rfl
+        · rcases h4 hs with ⟨z1, z2⟩ | ⟨hm, hv⟩
+          · left; exact ⟨by rw [hval0, z1, dval_zero], z2⟩
+          · right; exact ⟨hm, hv⟩
 
 end Verif.Proofs.Num
